@@ -5,6 +5,7 @@
 mod c19;
 mod c12;
 mod c14;
+mod c15real;
 mod c03real;
 mod slowproc;
 mod sysvars;
@@ -154,7 +155,13 @@ fn main() {
             }
             r
         }
-        "c15" => conc::run_c15(&args, &mut model),
+        "c15" => {
+            let mut r = conc::run_c15(&args, &mut model);
+            if args.replay.is_none() {
+                c15real::run(&mut r);
+            }
+            r
+        }
         "c10" | "c11" | "expr-child" => expr::run(&args, &mut model),
         "c05" | "c18" => codec::run(&args, &mut model),
         f => {
